@@ -66,13 +66,14 @@ GONext(os, argv, ai, ci) ==
          ELSE GOOcc(c, "M", 0, 0, ai + 1, 1)
 
 \* The whole loop `while getopts os name argv...`: all reports, then the end.
-RECURSIVE GOLoopFrom(_, _, _, _)
-GOLoopFrom(os, argv, ai, ci) ==
+\* (TLC re-evaluates a LET definition at each use: the recursion returns one
+\* sequence -- the reports followed by the end result -- used once per level.)
+RECURSIVE GOLoopSeq(_, _, _, _)
+GOLoopSeq(os, argv, ai, ci) ==
   LET r == GONext(os, argv, ai, ci) IN
-  IF ~r.opt THEN [reports |-> <<>>, optind |-> r.ai]
-  ELSE LET rest == GOLoopFrom(os, argv, r.ai, r.ci) IN
-       [reports |-> <<r>> \o rest.reports, optind |-> rest.optind]
-GOLoop(os, argv) == GOLoopFrom(os, argv, 1, 1)
+  IF ~r.opt THEN <<r>> ELSE <<r>> \o GOLoopSeq(os, argv, r.ai, r.ci)
+GOLoopOf(q) == [reports |-> SubSeq(q, 1, Len(q) - 1), optind |-> q[Len(q)].ai]
+GOLoop(os, argv) == GOLoopOf(GOLoopSeq(os, argv, 1, 1))
 
 GOArgText(argv, r) == IF r.k = 0 THEN <<>> ELSE SubSeq(argv[r.k], r.d, Len(argv[r.k]))
 
